@@ -18,6 +18,7 @@ use super::*;
 use crate::group::{ConfirmationTag, MessageSignature, RemoveProposal};
 use alloc::boxed::Box;
 use alloc::vec::Vec;
+use core::mem::ManuallyDrop;
 
 // zeroize::optimization_barrier is inline asm (unsupported by Kani); ApplicationData is
 // ZeroizeOnDrop.  Same signature as zeroize 1.9.0 `pub fn optimization_barrier<T: ?Sized>(val: &T)`.
@@ -71,10 +72,13 @@ fn application_body<const N: usize, const ENC: bool>() {
     let mut reader = input;
     // never a panic: every panic / overflow / out-of-bounds check inside the call is a
     // proof obligation of this harness
-    let r = PrivateMessageContent::mls_decode(&mut reader, ContentType::Application);
+    // ManuallyDrop: the drop glue of Result<PrivateMessageContent, _> (all of Proposal / Commit /
+    // LeafNode / UpdatePath, nested loops) is not part of the contract and makes symbolic
+    // execution explode (the Ok/Err niche is not constant-folded by CBMC)
+    let r = ManuallyDrop::new(PrivateMessageContent::mls_decode(&mut reader, ContentType::Application));
     let expect = oracle_application(input);
 
-    match r {
+    match &*r {
         Err(_) => assert!(expect.is_none()),
         Ok(v) => {
             // accepted <==> well-formed and zero padded
@@ -126,8 +130,6 @@ fn application_body<const N: usize, const ENC: bool>() {
             kani::cover!(l1 == 3 && l2 == 2 && len == N); // data, signature and padding
             kani::cover!(l1 == 0 && l2 == 0 && len == 2); // minimal message, no padding
             kani::cover!(consumed == len && len == N); // no padding at full length
-            // skip the drop glue of Content (all of Proposal / Commit / LeafNode): not part of the contract
-            core::mem::forget(v);
         }
     }
     kani::cover!(expect.is_none() && len == N);
@@ -167,7 +169,8 @@ fn c03_private_content_nonzero_padding_rejected_bounded_10() {
 
     let consumed = {
         let mut reader = &buf[..len];
-        match PrivateMessageContent::mls_decode(&mut reader, ContentType::Application) {
+        let r = ManuallyDrop::new(PrivateMessageContent::mls_decode(&mut reader, ContentType::Application));
+        match &*r {
             Ok(v) => v.mls_encoded_len(),
             Err(_) => {
                 kani::assume(false);
@@ -180,8 +183,8 @@ fn c03_private_content_nonzero_padding_rejected_bounded_10() {
     kani::assume(pos >= consumed && pos < len && val != 0);
     buf[pos] = val;
     let mut reader = &buf[..len];
-    let r = PrivateMessageContent::mls_decode(&mut reader, ContentType::Application);
-    assert!(matches!(r, Err(mls_rs_codec::Error::Custom(5))));
+    let r = ManuallyDrop::new(PrivateMessageContent::mls_decode(&mut reader, ContentType::Application));
+    assert!(matches!(&*r, Err(mls_rs_codec::Error::Custom(5))));
     kani::cover!(pos == len - 1 && pos > consumed);
     kani::cover!(pos == consumed);
 }
@@ -193,21 +196,21 @@ fn c03_private_content_nonzero_padding_rejected_bounded_10() {
 #[kani::stub(zeroize::optimization_barrier, noop_barrier)]
 fn c03_content_type_mapping() {
     let b: [u8; 2] = kani::any();
-    let app = Content::Application(ApplicationData::from(b.to_vec()));
+    let app = ManuallyDrop::new(Content::Application(ApplicationData::from(b.to_vec())));
     assert!(app.content_type() == ContentType::Application);
-    assert!(ContentType::from(&app) == ContentType::Application);
+    assert!(ContentType::from(&*app) == ContentType::Application);
 
     let idx: u32 = kani::any();
     kani::assume(idx <= 0x00FF_FFFF);
-    let prop = Content::Proposal(Box::new(Proposal::Remove(RemoveProposal {
+    let prop = ManuallyDrop::new(Content::Proposal(Box::new(Proposal::Remove(RemoveProposal {
         to_remove: LeafIndex::unchecked(idx),
-    })));
+    }))));
     assert!(prop.content_type() == ContentType::Proposal);
-    assert!(ContentType::from(&prop) == ContentType::Proposal);
+    assert!(ContentType::from(&*prop) == ContentType::Proposal);
 
-    let commit = Content::Commit(Box::new(Commit { proposals: Vec::new(), path: None }));
+    let commit = ManuallyDrop::new(Content::Commit(Box::new(Commit { proposals: Vec::new(), path: None })));
     assert!(commit.content_type() == ContentType::Commit);
-    assert!(ContentType::from(&commit) == ContentType::Commit);
+    assert!(ContentType::from(&*commit) == ContentType::Commit);
 
     assert!(ContentType::Application as u8 == 1);
     assert!(ContentType::Proposal as u8 == 2);
